@@ -8,4 +8,6 @@ pub mod c05;
 pub mod c06;
 pub mod c07;
 pub mod c08;
+pub mod c09;
+pub mod c10;
 pub mod c11;
